@@ -162,8 +162,8 @@ Print Assumptions C15_forward_refs_sources_dotted.
 (* ---- ClientForwardRefs keeps every EVALUATED name bound [full; hypothesis: subscript heads are not package imports,
         checked by the tie on every generated client]: names and heads the `def` statements evaluate keep their
         global import, the validated class keeps it or gets the import placed in the method ---- *)
-Theorem C15_forward_refs_bound : forall se c c',
-  fr_client se c = Some c' ->
+Theorem C15_forward_refs_bound : forall c c',
+  fr_client c = Some c' ->
   (forall m h, In m (cm_methods c) -> In h (sig_heads m) -> lookup h (fr_imported (cm_imports c)) = None) ->
   forall m', In m' (cm_methods c') ->
   exists m, In m (cm_methods c) /\
@@ -251,7 +251,7 @@ Definition consts (p : option package) : list (string * string) :=
 (* all four (+ identity) together: the hypotheses of the theorems above are met by a real run of the pipeline,
    the request is the unplugged one, the value is the projection, the import is deferred to the right module *)
 Example C15_all_plugins_example :
-  let p := generate [S0; E0; PIdentity; PForward false; PNoReimports] mini in
+  let p := generate [S0; E0; PIdentity; PForward; PNoReimports] mini in
   option_map (request_of (consts p)) (first_method p) = Some (request_of [] mini_method) /\
   option_map result_expr (first_method p) = Some (Some (RAttr (RValidate "GetMe") "me")) /\
   option_map m_returns (first_method p) = Some (Some (ASub "Optional" [AConst "GetMeMe"])) /\
@@ -263,7 +263,7 @@ Proof. vm_compute. repeat split. Qed.
 
 (* the hypotheses of C15_request_unchanged are met by that run *)
 Example C15_request_unchanged_hypotheses :
-  let ps := [S0; E0; PIdentity; PForward false; PNoReimports] in
+  let ps := [S0; E0; PIdentity; PForward; PNoReimports] in
   List.length (estates ps) = 1 /\ init_ok ps /\
   Forall (fun o => std_body (uo_method o) = true) (u_ops mini) /\
   NoDup (map const_name (map uo_name (u_ops mini))) /\
@@ -281,7 +281,7 @@ Qed.
    GetMe` — one dot — and TYPE_CHECKING is imported from the absolute module `typing` (level 0), both in the
    method body and in the TYPE_CHECKING block *)
 Example C15_forward_refs_regression_F24 :
-  let p := generate [PForward false] mini in
+  let p := generate [PForward] mini in
   option_map (fun m => hd_error (m_body m)) (first_method p) = Some (Some (SImport 1 "get_me" "GetMe")) /\
   src_of 1 "get_me" = ".get_me" /\
   option_map (fun pk => existsb (fun i => Nat.eqb (i_level i) 0 && String.eqb (i_module i) "typing"
@@ -296,8 +296,8 @@ Proof. vm_compute. repeat split. Qed.
 (* order matters (documented model behaviour, not a defect): after ClientForwardRefs the return annotation is a
    string constant, so a ShorterResults placed later leaves every method alone *)
 Example C15_order_dependence :
-  option_map result_expr (first_method (generate [PForward false; S0] mini)) = Some (Some (RValidate "GetMe")) /\
-  option_map result_expr (first_method (generate [S0; PForward false] mini)) = Some (Some (RAttr (RValidate "GetMe") "me")).
+  option_map result_expr (first_method (generate [PForward; S0] mini)) = Some (Some (RValidate "GetMe")) /\
+  option_map result_expr (first_method (generate [S0; PForward] mini)) = Some (Some (RAttr (RValidate "GetMe") "me")).
 Proof. vm_compute. split; reflexivity. Qed.
 
 (* ShorterResults counts a field selected both directly and through a fragment twice: the result object has ONE
@@ -326,8 +326,8 @@ Definition custom_ops_client : cmodule :=
                        m_body := [SOther "response = await self.execute(...)";
                                   SReturn (RCallOn "self" "self.get_data(response)")] |}] |}.
 Example C15_forward_refs_regression_custom_operations :
-  option_map cm_methods (fr_client false custom_ops_client) = Some (cm_methods custom_ops_client) /\
-  option_map (fun c => map (fun i => src_of (i_level i) (i_module i)) (cm_imports c)) (fr_client false custom_ops_client)
+  option_map cm_methods (fr_client custom_ops_client) = Some (cm_methods custom_ops_client) /\
+  option_map (fun c => map (fun i => src_of (i_level i) (i_module i)) (cm_imports c)) (fr_client custom_ops_client)
     = Some ["typing"; ".async_base_client"; ".input_types"; ".get_me"].
 Proof. vm_compute. split; reflexivity. Qed.
 
@@ -336,12 +336,13 @@ Example C15_forward_refs_bound_hypothesis :
   let c := with_imports_methods (u_client mini) (cm_imports (u_client mini)) [mini_method] in
   forallb (fun m => forallb (fun h => match lookup h (fr_imported (cm_imports c)) with None => true | Some _ => false end)
                             (sig_heads m)) (cm_methods c) = true /\
-  sig_heads mini_method = ["Optional"] /\ fr_client false c <> None.
+  sig_heads mini_method = ["Optional"] /\ fr_client c <> None.
 Proof. vm_compute. repeat split. discriminate. Qed.
 
-(* finding C15-forward-refs-empty-type-checking-block (open): ShorterResults turns every return annotation into a
-   builtin (`int`), ClientForwardRefs then has no name to put under TYPE_CHECKING but still emits the block — the
-   module cannot be formatted and generation fails.  Witness: one operation `query item { item }` on `item: Int`. *)
+(* regression example for finding C15-forward-refs-empty-type-checking-block (fixed by /repo c4f3669): ShorterResults
+   turns every return annotation into a builtin (`int`), ClientForwardRefs has no name to put under TYPE_CHECKING; it
+   used to emit the block without a body (generation crashed in the formatter), now it emits neither the block nor
+   the TYPE_CHECKING import.  One operation `query item { item }` on `item: Int`. *)
 Definition scalar_only : upackage :=
   {| u_ops := [{| uo_name := "item"; uo_kind := KQuery; uo_str := "query item { item }";
                   uo_classes := [{| c_name := "Item"; c_bases := ["BaseModel"]; c_fields := [("item", ASub "Optional" [AName "int"])] |}];
@@ -357,8 +358,11 @@ Definition scalar_only : upackage :=
                                    {| i_level := 1; i_module := "item"; i_names := ["Item"] |}];
                     cm_tc := []; cm_class := "Client"; cm_bases := ["AsyncBaseClient"]; cm_methods := [] |};
      u_init := {| in_imports := []; in_all := [] |} |}.
-Theorem C15_forward_refs_empty_block_refuted :
-  generate [S0; PForward false] scalar_only = None /\
-  generate [PForward false] scalar_only <> None /\ generate [S0] scalar_only <> None /\
-  option_map (fun p => cm_tc (pk_client p)) (generate [S0; PForward true] scalar_only) = Some [].
+Example C15_forward_refs_regression_empty_block :
+  option_map (fun p => cm_tc (pk_client p)) (generate [S0; PForward] scalar_only) = Some [] /\
+  option_map (fun p => existsb (fun i => mem "TYPE_CHECKING" (i_names i)) (cm_imports (pk_client p)))
+             (generate [S0; PForward] scalar_only) = Some false /\
+  option_map (fun p => map m_returns (cm_methods (pk_client p))) (generate [S0; PForward] scalar_only)
+    = Some [Some (ASub "Optional" [AName "int"])] /\
+  generate [PForward] scalar_only <> None /\ generate [S0] scalar_only <> None.
 Proof. vm_compute. repeat split; discriminate. Qed.
